@@ -125,8 +125,8 @@ class CHECK(core.Check):
                "applications that yield more or fewer bytes than they declared the responder-to-wire step is correspondence "
                "only (the wire-to-client step is proved)",
                "whole-buffer parsing only (arrival in pieces is C29); multipart/form-data bodies (random boundary), server "
-               "sent events, idna fallbacks, AttributiveGenerator overrides, Python int() spellings with sign/underscore/0x "
-               "are outside the model"]
+               "sent events, idna fallbacks, AttributiveGenerator overrides, a negative chunk size (Python then slices from the end "
+               "of the buffer; for such raw inputs nothing is compared) are outside the model"]
     TECHNIQUE = ("Lean 4 theorems about byte-level codecs (round trips by induction over lists; structural line splitter; "
                  "hex/decimal numerals) + differential correspondence of the builders and parsers of both directions")
     LEVEL_TEXT = ("Proved on the model, for all inputs and every behaviour of urllib.parse: parseChunk(packChunk(b)+rest) = "
@@ -358,7 +358,8 @@ class CHECK(core.Check):
             k = rng.choice(["rawchunk", "rawleader", "rawreq", "rawresp"])
             frags = [b"\r\n", b"\n", b"\r", b": ", b":", b";", b"=", b"0", b"a", b"FF", b"ff", b" ", b"GET", b"HTTP/1.1", b"HTTP/1.0",
                      b"200", b"/p", b"Content-Length: 3", b"Transfer-Encoding: chunked", b"x", b"\xff", b"1", b"3\r\nabc\r\n",
-                     b"0\r\n\r\n", b"Host: h", b"100 Continue", b"HTTP/1.1 204 No\r\n\r\n", b"Connection: close", b"zz"]
+                     b"0\r\n\r\n", b"Host: h", b"100 Continue", b"HTTP/1.1 204 No\r\n\r\n", b"Connection: close", b"zz",
+                     b"0x", b"0X", b"_", b"+", b"-", b"\t"]
             raw = b"".join(rng.choice(frags) for _ in range(rng.choice([1, 3, 6, 12])))
             return {"kind": k, "raw": raw.hex(), "method": rng.choice(["GET", "HEAD"]), "closed": rng.random() < 0.4}
         k = rng.choice(["chunk", "header", "request", "request", "request", "response", "response", "response", "session",
@@ -1004,6 +1005,11 @@ class CHECK(core.Check):
         while k < len(replies) and replies[k] == "ok":
             k += 1
         out = list(replies[k:])
+        if case["kind"].startswith("raw") and "err out-of-model" in out:
+            # the model says explicitly that this input is outside what it transcribes (a negative chunk size, an event
+            # stream): nothing to compare — the implementation's own lines stand in (such a case never counts as non-trivial)
+            impl_lines = self._trace.get(core.case_key(case), (None, [], None))[1]
+            out = [impl_lines[i] if (l == "err out-of-model" and i < len(impl_lines)) else l for i, l in enumerate(out)]
         if case["kind"] == "request":
             server = None
             if case.get("server") and out:
